@@ -846,6 +846,18 @@ def execute(sc):
                     if kind == "pca" and cfg["bounds"] is not None and h.d > 1:
                         nw = None  # folded moves hide the direction geometry: layers B/C cover bounded PCA
                         stats["skipped_bounded_pca_geometry"] += 1
+                        # ... but a proposal that was not brought back into the box is visible without any geometry: the
+                        # Metropolis test would then be taken on the untruncated density
+                        lo_, hi_ = np.asarray(cfg["bounds"][0], dtype=float), np.asarray(cfg["bounds"][1], dtype=float)
+                        tol_ = 1e-9 * (np.abs(lo_) + np.abs(hi_) + (hi_ - lo_))
+                        for e_ in ev:
+                            if e_[1] == "post" and np.all(np.isfinite(e_[2])) and ((e_[2] < lo_ - tol_).any() or (e_[2] > hi_ + tol_).any()):
+                                _viol(V, "A.proposal", "pca: with bounds %r the posterior was evaluated (and the Metropolis test taken) at the "
+                                      "unreflected proposal %r" % ([lo_.tolist(), hi_.tolist()], e_[2].tolist()))
+                                break
+                        if V:
+                            break
+                        stats["bounded_pca_evaluations_inside_checked"] += 1
                     else:
                         nw = refine_coordinatewise(V, stats, h, ev, w, kind)
                 elif kind == "metropolis":
